@@ -43,19 +43,38 @@ RECURSIVE Flatten(_)
 Flatten(cs) == IF cs = <<>> THEN <<>> ELSE Head(cs) \o Flatten(Tail(cs))
 
 Word(bs)    == <<[k |-> "word", v |-> bs]>>
-\* -abc without `=`: cs = characters after the dash
-RECURSIVE Cluster(_, _, _, _)
-Cluster(cs, flags, args, whole) ==
-  IF cs = <<>> THEN [amb |-> FALSE, toks |-> <<>>, word |-> FALSE]
-  ELSE LET c == Head(cs)  rest == Tail(cs)  f == c \in flags  a == c \in args IN
-       IF f /\ a THEN [amb |-> TRUE, toks |-> <<>>, word |-> FALSE]
-       ELSE IF a THEN [amb |-> FALSE, word |-> FALSE,
-                        toks |-> <<[k |-> "short", n |-> c, adj |-> rest # <<>>]>>
-                                 \o (IF rest = <<>> THEN <<>> ELSE <<[k |-> "word", v |-> Flatten(rest)]>>)]
-       ELSE IF f THEN LET r == Cluster(rest, flags, args, whole) IN
-                      IF r.amb \/ r.word THEN r
-                      ELSE [amb |-> FALSE, word |-> FALSE, toks |-> <<[k |-> "short", n |-> c, adj |-> FALSE]>> \o r.toks]
-       ELSE [amb |-> FALSE, toks |-> <<>>, word |-> TRUE]         \* an undeclared letter: the whole item is a word
+\* the body of a single-dash item (bytes after the dash), resolved against the declared short names:
+\*   c            a short name on its own
+\*   c=VALUE      name and value, VALUE = every byte after the `=`
+\*   cVALUE       when c is a declared argument: VALUE = every remaining byte (it may contain `=`)
+\*   cREST        when c is a declared flag: REST is resolved the same way (a cluster)
+\*   anything else: a word (an undeclared first letter followed by `name=value` text keeps bpaf's reading
+\*   "first character is the name", which is an error either way)
+\* result: [amb, word, toks]
+RECURSIVE ShortBody(_, _, _, _)
+ShortBody(body, flags, args, top) ==
+  LET c == FirstChar(body) IN
+  IF c = <<>> THEN [amb |-> FALSE, word |-> TRUE, toks |-> <<>>]
+  ELSE LET rest == SubSeq(body, Len(c) + 1, Len(body)) IN
+    IF rest = <<>>
+    THEN \* a lone letter is a short name whatever it is; inside a cluster the last letter must be declared too
+         IF top \/ c \in flags \/ c \in args
+         THEN (IF ~top /\ c \in flags /\ c \in args THEN [amb |-> TRUE, word |-> FALSE, toks |-> <<>>]
+               ELSE [amb |-> FALSE, word |-> FALSE, toks |-> <<[k |-> "short", n |-> c, adj |-> FALSE]>>])
+         ELSE [amb |-> FALSE, word |-> TRUE, toks |-> <<>>]
+    ELSE IF rest[1] = EQ
+    THEN [amb |-> FALSE, word |-> FALSE,
+          toks |-> <<[k |-> "short", n |-> c, adj |-> TRUE], [k |-> "argword", v |-> SubSeq(rest, 2, Len(rest))]>>]
+    ELSE IF c \in flags /\ c \in args THEN [amb |-> TRUE, word |-> FALSE, toks |-> <<>>]
+    ELSE IF c \in args
+    THEN [amb |-> FALSE, word |-> FALSE, toks |-> <<[k |-> "short", n |-> c, adj |-> TRUE], [k |-> "argword", v |-> rest]>>]
+    ELSE IF c \in flags
+    THEN LET r == ShortBody(rest, flags, args, FALSE) IN
+         IF r.amb \/ r.word THEN r
+         ELSE [amb |-> FALSE, word |-> FALSE, toks |-> <<[k |-> "short", n |-> c, adj |-> FALSE]>> \o r.toks]
+    ELSE IF FirstEq(rest) > 0
+    THEN [amb |-> FALSE, word |-> FALSE, toks |-> <<[k |-> "short", n |-> c, adj |-> TRUE], [k |-> "argword", v |-> rest]>>]
+    ELSE [amb |-> FALSE, word |-> TRUE, toks |-> <<>>]
 
 \* one OS string outside positional-only mode: [toks, dd (it was the `--` marker), amb]
 LexItem(bs, flags, args) ==
@@ -70,22 +89,9 @@ LexItem(bs, flags, args) ==
             IF IsText(name) THEN R(<<[k |-> "long", n |-> name, adj |-> TRUE],
                                      [k |-> "argword", v |-> SubSeq(body, e + 1, Len(body))]>>)
             ELSE R(Word(bs))
-  ELSE \* short
-       LET body == SubSeq(bs, 2, Len(bs))  e == FirstEq(body) IN
-       IF e = 1 THEN R(Word(bs))              \* `-=...`: `=` cannot be a name, not fixed by the documentation: see LexCheck
-       ELSE IF e > 1
-       THEN \* the name is the first character before `=`; further characters before `=` belong to the value
-            LET c == FirstChar(body) IN
-            IF c = <<>> \/ Len(c) > e - 1 THEN R(Word(bs))
-            ELSE R(<<[k |-> "short", n |-> c, adj |-> TRUE],
-                     [k |-> "argword", v |-> IF Len(c) = e - 1 THEN SubSeq(body, e + 1, Len(body))
-                                             ELSE SubSeq(body, Len(c) + 1, Len(body))]>>)
-       ELSE LET ch == Chars(body) IN
-            IF ~ch.ok THEN R(Word(bs))
-            ELSE IF Len(ch.cs) = 1 THEN R(<<[k |-> "short", n |-> ch.cs[1], adj |-> FALSE]>>)
-            ELSE LET r == Cluster(ch.cs, flags, args, bs) IN
-                 IF r.amb THEN [toks |-> Word(bs), dd |-> FALSE, amb |-> TRUE]
-                 ELSE IF r.word THEN R(Word(bs)) ELSE R(r.toks)
+  ELSE LET r == ShortBody(SubSeq(bs, 2, Len(bs)), flags, args, TRUE) IN
+       IF r.amb THEN [toks |-> Word(bs), dd |-> FALSE, amb |-> TRUE]
+       ELSE IF r.word THEN R(Word(bs)) ELSE R(r.toks)
 
 \* a whole argument vector
 RECURSIVE LexAll(_, _, _, _)
